@@ -123,6 +123,20 @@ Proof.
     specialize (W L); rewrite Nat2Z.inj_succ; clear - W Hn; unfold task in *; lia.
 Qed.
 
+(* lia's preprocessing trips over boolean lambdas inside `filter`: abstract such lengths first *)
+Ltac absf :=
+  repeat match goal with
+         | |- context [length (filter ?f ?l)] =>
+             let n := fresh "n" in let E := fresh "E" in remember (length (filter f l)) as n eqn:E; clear E
+         | H : context [length (filter ?f ?l)] |- _ =>
+             let n := fresh "n" in let E := fresh "E" in remember (length (filter f l)) as n eqn:E; clear E
+         end.
+Ltac zlia :=
+  repeat match goal with x := _ : state |- _ => subst x end;
+  cbn [with_pc with_waiters with_woken with_idle with_closedc add_slot del_slot swap_slot bump_conn
+       acquired woken waiters] in *;
+  absf; unfold task, key, conn in *; lia.
+
 Lemma step_wake c s e s' :
   lph c = 0%Z -> (0 < limit c)%Z ->
   coh s -> conn_inv s -> wake_inv c s -> step c s e = Some s' -> wake_inv c s'.
@@ -133,12 +147,12 @@ Proof.
   - (* EStart *)
     destruct (get_pc (pcs s) t); try discriminate.
     assert (P : wake_inv c (proceed c s t k)).
-    { apply (proceed_wake c s t k (length (woken s)) Hc); [exact W|lia]. }
+    { apply (proceed_wake c s t k (length (woken s)) Hc); [exact W|zlia]. }
     destruct (take_idle k (idle s)); [injection H as <-; intro Hc'; apply P; exact Hc'|].
     destruct (connect_must_wait (avail c s k)) eqn:Ew; injection H as <-; [|intro Hc'; apply P; exact Hc'].
     intros _ _. cbn [with_pc with_waiters acquired woken].
     apply must_wait_true in Ew. unfold avail in Ew. rewrite Hl in Ew.
-    apply avail_total_only_nonpos in Ew; [lia|exact HL].
+    apply avail_total_only_nonpos in Ew; [zlia|exact HL].
   - (* EResume *)
     destruct (get_pc (pcs s) t) as [| k f | | | | |] eqn:Ep; try discriminate. destruct f; try discriminate.
     + set (s1 := with_woken s (filter (fun x => negb (x =? t)) (woken s))) in *.
@@ -148,7 +162,7 @@ Proof.
         intros (t' & k' & X). apply W. exists t', k'. exact X.
       * intros _ _. cbn [with_pc with_waiters with_woken acquired woken].
         apply slot_found_false in Ef. unfold avail in Ef. rewrite Hl in Ef. cbn [s1 with_woken acquired hostacq] in Ef.
-        apply avail_total_only_nonpos in Ef; [lia|exact HL].
+        apply avail_total_only_nonpos in Ef; [zlia|exact HL].
     + injection H as <-. intros _ (t' & k' & X). cbn [with_pc with_waiters acquired woken waiters] in *.
       apply filter_In in X as [X _]. apply W. exists t', k'. exact X.
     + set (s1 := with_woken s (filter (fun x => negb (x =? t)) (woken s))) in *.
@@ -157,9 +171,9 @@ Proof.
       destruct (release_waiter_effect c s1 order s2 Hl HL Er) as (A & B & D).
       intros _ Hlive. cbn [with_pc acquired woken] in *. rewrite A.
       assert (L2 : has_live s2) by (destruct Hlive as (t' & k' & X); exists t', k'; exact X).
-      destruct D as [D|D]; [cbn [s1 with_woken acquired] in D |- *; lia|].
+      destruct D as [D|D]; [cbn [s1 with_woken acquired] in D |- *; zlia|].
       specialize (D L2). rewrite D. specialize (B L2). cbn [s1 with_woken acquired woken waiters] in *.
-      assert (L : has_live s) by exact B. specialize (W L). rewrite Nat2Z.inj_succ. lia.
+      assert (L : has_live s) by exact B. specialize (W L). rewrite Nat2Z.inj_succ. zlia.
   - (* ECancel *)
     destruct (get_pc (pcs s) t) as [| k f | | | | |] eqn:Ep; try discriminate.
     destruct f; try discriminate; injection H as <-; intros _ (t' & k' & X);
@@ -180,8 +194,8 @@ Proof.
     intros _ Hlive. cbn [with_pc acquired woken] in *. rewrite A.
     assert (L1 : has_live s1) by (destruct Hlive as (t' & k' & X); exists t', k'; exact X).
     cbn [del_slot acquired woken waiters] in *.
-    destruct D as [D|D]; [lia|]. rewrite (D L1). assert (L : has_live s) by exact (B L1).
-    specialize (W L). rewrite Nat2Z.inj_succ. lia.
+    destruct D as [D|D]; [zlia|]. rewrite (D L1). assert (L : has_live s) by exact (B L1).
+    specialize (W L). rewrite Nat2Z.inj_succ. zlia.
   - (* ERelease *)
     destruct (get_pc (pcs s) t) as [| | | k cn0 | | |]; try discriminate. rewrite Hc in H.
     destruct (release_acquired c s (SConn cn0) order) as [s1|] eqn:Er; [|discriminate]. injection H as <-.
@@ -198,8 +212,8 @@ Proof.
                                  else with_idle s1 (idle s1 ++ [(cn0, k)])) t PDone) = woken s1)
       by (destruct (force_close c || cl); reflexivity).
     rewrite E1, E2, A. cbn [del_slot acquired woken waiters] in *.
-    destruct D as [D|D]; [lia|]. rewrite (D L1). assert (L : has_live s) by exact (B L1).
-    specialize (W L). rewrite Nat2Z.inj_succ. lia.
+    destruct D as [D|D]; [zlia|]. rewrite (D L1). assert (L : has_live s) by exact (B L1).
+    specialize (W L). rewrite Nat2Z.inj_succ. zlia.
   - (* EClose *)
     rewrite Hc in H. injection H as <-. cbn [closed]. discriminate.
 Qed.
